@@ -162,6 +162,9 @@ def run_part(ctx, n_cases=None):
     for c, o in cases[:2]:
         ctx.sample({"case": c, "var_mapping": o["vars"], "n": o["n"]})
     mism, err = ctx.coq_mismatches("seq", S.HEADER, "scase", "check_scase", terms, shard=40)
+    # fields 8-10 (A, b, R, c, Q, get_routes) belong to C07 and are reported there
+    mism = [(i, [t for t in tags if t not in (8, 9, 10)]) for i, tags in mism]
+    mism = [(i, tags) for i, tags in mism if tags]
     for idx, tags in mism[:3]:
         case, out = cases[idx]
         model = ctx.coq_eval(S.HEADER, "match " + S.inst_term(case) +
